@@ -98,7 +98,7 @@ namespace vu
       C< P1 >::raise( cin, st... );
    }
 
-   template< typename... T > void touch();
+   template< typename... T > constexpr std::size_t touch() { return ( sizeof( T ) + ... + 0 ); }   // forces complete types; cfgx records their facts
 
    inline bool all_dispatch( In& in, const In& cin, St& st, St2& st2, CtlState& cs )
    {
